@@ -34,8 +34,13 @@ fn probe_triple(sched: &SchedRec, proto: &ProtoRec) -> Triple {
 }
 
 pub fn monitor(out: &RunOut) -> MonOut {
+    run(out, "C08")
+}
+
+/// The same model under another label: C19 evaluates it in profiles built around wall-clock
+/// classes (pre-epoch, sub-microsecond, i64-microsecond limits) and hostile stored integers.
+pub fn run(out: &RunOut, p: &str) -> MonOut {
     let mut m = MonOut::default();
-    let p = "C08";
     let h = &out.hist;
     let lives = seg::lives(h);
     for (li, l) in lives.iter().enumerate() {
